@@ -12,7 +12,7 @@ def binaries(rep):
     return mlr, mlrv
 
 
-def run(binary, argv, env=None, stdin=None, timeout=60, cwd=None):
+def run(binary, argv, env=None, stdin=None, timeout=60, cwd=None, fsize_limit=None):
     e = dict(os.environ)
     for k in ("MLR_VERIF_CRASH", "MLR_VERIF_PERTURB", "MLR_VERIF_TRACE", "MLRRC"):
         e.pop(k, None)
@@ -20,7 +20,13 @@ def run(binary, argv, env=None, stdin=None, timeout=60, cwd=None):
     if env:
         e.update(env)
     try:
-        p = subprocess.run([binary] + argv, capture_output=True, env=e, input=stdin, timeout=timeout, cwd=cwd)
+        pre = None
+        if fsize_limit is not None:
+            import resource, signal
+            def pre():
+                signal.signal(signal.SIGXFSZ, signal.SIG_IGN)
+                resource.setrlimit(resource.RLIMIT_FSIZE, (fsize_limit, fsize_limit))
+        p = subprocess.run([binary] + argv, capture_output=True, env=e, input=stdin, timeout=timeout, cwd=cwd, preexec_fn=pre)
         return p.returncode, p.stdout, p.stderr
     except subprocess.TimeoutExpired as x:
         return "timeout", x.stdout or b"", x.stderr or b""
